@@ -169,7 +169,7 @@ func (g *Gen) intLeaf(depth int) *Val {
 		case 3:
 			if vs := g.vars[tLInt]; len(vs) > 0 {
 				// guarded element access
-				return Call(lib.Pick(r, []string{"min", "max"}), E(Ident(lib.Pick(r, vs)), Bin("+", List(IntE(r.Range(-5, 5))))))
+				return Call(lib.Pick(r, []string{"min", "max"}), E(List(IntE(r.Range(-5, 5))), Bin("+", Ident(lib.Pick(r, vs)))))
 			}
 		case 4:
 			return Paren(&Expr{Val: g.intLit(), If: flatten(g.boolTree(depth - 1)), Els: E(g.intLit())})
@@ -294,7 +294,7 @@ func (g *Gen) listIntExpr(depth int) *Expr {
 		}
 	case 2:
 		x := "x"
-		src := E(Call("range", flatten(g.intTree(0))))
+		src := E(Call("range", IntE(r.Range(0, 6))))
 		if len(g.vars[tLInt]) > 0 && r.Bool() {
 			src = IdE(lib.Pick(r, g.vars[tLInt]))
 		}
@@ -436,7 +436,7 @@ func (g *Gen) Program() Prog {
 			d := g.fresh(tDict)
 			g.stmts = append(g.stmts, Assign(d, g.exprOf(tDict, 1)))
 			g.stmts = append(g.stmts, IdxAssign(d, StrE(lib.Pick(r, []string{"k", "a", "n"})), g.exprOf(tInt, 1)))
-			g.stmts = append(g.stmts, Assign(g.fresh(tLStr), E(Method(Ident(d), "keys"))))
+			g.stmts = append(g.stmts, Assign(g.fresh(tLStr), E(Comp(IdE("k"), []string{"k"}, E(Method(Ident(d), "keys")), nil))))
 		case 13:
 			// enumerate / zip
 			if vs := g.vars[tLInt]; len(vs) > 0 {
